@@ -1104,7 +1104,7 @@ fn exec_real_path_sh(case: &Value) -> RunResult {
     if let Ok(seen) = std::fs::read_to_string(&marker) {
         return res.violation(
             "shell-ran-the-program-file",
-            format!("real OS: `command(\"vktool\")` with PATH overridden to a directory holding an executable text file without `#!`: a shell interpreted the file (it saw `$0 $# $1` = {:?}); naija exited {}", seen.trim(), run.code),
+            format!("real OS: `command(\"vktool\")` with PATH overridden to a directory holding an executable text file without `#!`: a shell interpreted the file (it saw `$0 $# $1` = {:?}); naija exited {}", seen.trim().replace(&dir, "<dir>"), run.code),
         );
     }
     res
